@@ -87,7 +87,7 @@ def gen_case(rng, uniform=True, small=True):
         loads.append(('coat', [rng.uniform(1.2, 3), rng.uniform(1.5, 5)], None))
     k = rng.randint(1, min(3, N))
     srcs = []
-    for p in rng.sample(range(N), k):
+    for p in antgen.source_pulses(rng, m, k):
         mag = 10 ** rng.uniform(-1, 1.5)
         ph = rng.uniform(-math.pi, math.pi) if rng.random() < 0.7 else 0.0
         srcs.append((p, [mag * math.cos(ph), mag * math.sin(ph)]))
